@@ -307,6 +307,12 @@ def end_to_end(ctx):
         if i % 2 == 0:
             o["repeat"] = rng.choice([2, 3])     # every iteration's events are in the reports
         cases.append(cw.Case(w, o))
+    # -x: whatever was reported before the run stopped is in the reports - every failing sub-test of the test that
+    # stopped it
+    for i in range(3 if ctx.quick() else 40):
+        w = worlds.gen_world(rng, n_layers=2, tests_per_layer=(1, 3), kinds=["subFail2", "subFail2", "pass", "bodyAndTearDown"],
+                             p_fault=0.0, p_write=0.0)
+        cases.append(cw.Case(w, {"verbose": 1, "stopOnError": True}, "stop"))
     # --buffer: what failing tests wrote (terminal colours, NUL, form feed) may or may not be part of the reports -
     # they stay well-formed
     for i in range(4 if ctx.quick() else 60):
